@@ -27,6 +27,11 @@ func c20Gen(r *rand.Rand, tier string) []spec.Case {
 		}
 		out = append(out, spec.Case{Kind: c.Kind, P: spec.MustJSON(c)})
 	}
+	// process-wide state: managed clients created while CleanupClients runs (a host child of their own)
+	for _, g := range []int{4, 16} {
+		c := spec.C20Case{Kind: "managed", G: g, Ops: 6, Seed: r.Int63n(1 << 30)}
+		out = append(out, spec.Case{Kind: "solo:managed", P: spec.MustJSON(c)})
+	}
 	return out
 }
 
@@ -124,7 +129,7 @@ func init() {
 		ID: "C20", Level: "exploration", Race: true, TestName: "TestC20",
 		Gen: c20Gen, Batch: 3, Children: 5, PerCase: 30 * time.Second, Base: 180 * time.Second,
 		Judge: c20Judge, Finish: c20Finish,
-		Rule:        "a case = one concurrent round with n in {4,16,64} goroutines, race detector on host and plugin: (a) on an in-process MuxBroker / GRPCBroker / multiplexed pair: accept/dial pairs on distinct ids reserved with NextId (sequential under multiplexing), concurrent Dispense/calls/Ping, NextId hammering from both sides; (b) on one real Client: Start, Client, Exited, ID, ReattachConfig, NegotiatedVersion (only after a Start returned), Protocol, Dispense of three plugin names + calls + brokered connections served by the plugin; in a third of the rounds Close / server Stop / two concurrent Kill calls race with the in-flight operations. Seeded 0-2 ms jitter at every hook point. Oracles: race-detector logs of both processes attributed to go-plugin by accessing frame, host death, recovered panics, panic/fatal lines on the plugin's stderr, duplicates in the multiset of NextId results. Class = kind, goroutines, shutdown race",
+		Rule:        "a case = one concurrent round with n in {4,16,64} goroutines, race detector on host and plugin: (a) on an in-process MuxBroker / GRPCBroker / multiplexed pair: accept/dial pairs on distinct ids reserved with NextId (sequential under multiplexing), concurrent Dispense/calls/Ping, NextId hammering from both sides; (b) on one real Client: Start, Client, Exited, ID, ReattachConfig, NegotiatedVersion (only after a Start returned), Protocol, Dispense of three plugin names + calls + brokered connections served by the plugin; in a third of the rounds Close / server Stop / two concurrent Kill calls race with the in-flight operations. (c) process-wide state: goroutines creating managed clients while CleanupClients runs. Seeded 0-2 ms jitter at every hook point. Oracles: race-detector logs of both processes attributed to go-plugin by accessing frame, host death, recovered panics, panic/fatal lines on the plugin's stderr, duplicates in the multiset of NextId results. Class = kind, goroutines, shutdown race",
 		Assumptions: []string{"operation failures are not judged here (expected under shutdown races; routing is C06-C08's)", "a clean race-detector run covers only the accesses and schedules this workload produced"},
 	})
 }
